@@ -178,6 +178,19 @@ CALLS = [("reset", "training-set"), ("reset", "f2"), ("step", 0), ("step", 1), (
 
 def _seq_work(unit):
     name, histories = unit
+    try:
+        return _seq_work_inner(unit)
+    except Exception as ex:
+        from mcx.common import impl_raised
+        if not impl_raised(ex):
+            raise
+        return {"evaluations": 1, "outcomes": set(), "nontrivial": 0,
+                "violations": [({"part": "sequential", "config": name, "history": list(histories[0]) if histories else [], "fold": "training-set"},
+                                "config %s: building or probing the environment raised %r" % (name, ex), ("seq-exc", name, 0))]}
+
+
+def _seq_work_inner(unit):
+    name, histories = unit
     out = {"evaluations": 0, "violations": [], "outcomes": set(), "nontrivial": 0}
     reset_clock()
     env0, actions, bad = make_env(name)
@@ -250,6 +263,19 @@ def run_schedule(pair, sched, script):
 
 
 def _sched_work(unit):
+    pair, scheds, script = unit
+    try:
+        return _sched_work_inner(unit)
+    except Exception as ex:
+        from mcx.common import impl_raised
+        if not impl_raised(ex):
+            raise
+        return {"evaluations": 1, "outcomes": set(), "nontrivial": 0,
+                "violations": [({"part": "schedule", "pair": list(pair), "schedule": list(scheds[0]), "script_len": len(script)},
+                                "pair %s: building or running the environments raised %r" % (pair, ex), ("sched-exc", pair[0], pair[2], 0))]}
+
+
+def _sched_work_inner(unit):
     pair, scheds, script = unit
     out = {"evaluations": 0, "violations": [], "outcomes": set(), "nontrivial": 0}
     alone1 = run_alone(pair[0], pair[1], script)
